@@ -3,6 +3,7 @@
 mod common;
 use common::*;
 use affinitree::pwl::afftree::AffTree;
+use affinitree::pwl::impl_composition::{FunctionComposition, NoOpVis};
 use affinitree::pwl::node::NodeState;
 use ndarray::Array1;
 use std::panic::AssertUnwindSafe;
@@ -144,7 +145,31 @@ fn one_case<const K: usize>(r: &mut Rng, id: usize, out: &mut String) {
         let mut h = f.clone();
         // both un-pruned variants: without and with the progress visitor
         let verbose = r.chance(1, 4);
-        let res = catch(AssertUnwindSafe(|| if verbose { h.compose::<false, true>(&g) } else { h.compose::<false, false>(&g) }));
+        // one case in five goes through the generic entry point compose() delegates to, with the terminals of f listed in
+        // a random order (depth-first, reversed, shuffled): the law does not depend on the order in which they are processed
+        let direct = !verbose && r.chance(1, 5);
+        let mut order: Vec<usize> = h.tree.terminal_indices().collect();
+        if direct {
+            match r.below(3) {
+                0 => order.reverse(),
+                1 => order = h.tree.dfs_iter().map(|d| d.index).filter(|i| h.tree.is_leaf(*i).unwrap_or(false)).collect(),
+                _ => {
+                    for i in (1..order.len()).rev() {
+                        let j = r.below(i + 1);
+                        order.swap(i, j);
+                    }
+                }
+            }
+        }
+        let res = catch(AssertUnwindSafe(|| {
+            if direct {
+                AffTree::<K>::generic_composition_inplace(&g, &mut h, order.clone(), FunctionComposition {}, NoOpVis {})
+            } else if verbose {
+                h.compose::<false, true>(&g)
+            } else {
+                h.compose::<false, false>(&g)
+            }
+        }));
         let g_after = sx_tree(&g);
         let (oc, dump, pts) = match res {
             Ok(()) => {
